@@ -35,7 +35,7 @@ Qed.
 Lemma do_init_refused p s r s' : do_init p s r = (s', ResRefused) -> s' = s.
 Proof.
   unfold do_init. destruct (running s); [intros H; inversion H; reflexivity|].
-  destruct (exec_actions _ _ _) as [s3 failed]. intros H; inversion H.
+  destruct (exec_actions _ _ _) as [s3 failed]. destruct failed; intros H; inversion H.
 Qed.
 
 Lemma do_end_repl_refused fuel p s s' : do_end_repl fuel p s = (s', ResRefused) -> s' = s.
@@ -121,14 +121,24 @@ Proof.
   destruct (rs s), (ps s); cbn; zb.
 Qed.
 
+(* a handler body fails exactly when it contains a failing action *)
+Lemma exec_actions_failed md acts : forall s, snd (exec_actions md s acts) = existsb is_fail acts.
+Proof.
+  induction acts as [|a r IH]; intros s; cbn [exec_actions existsb]; [reflexivity|].
+  destruct a; cbn [exec_action is_fail orb]; try apply IH. reflexivity.
+Qed.
+
 Theorem accept_refuse_table_inv fuel p s c :
   (rs_initialized (rs s) = true -> rep s <> None) ->
-  snd (do_cmd fuel p s c) = table_of s c.
+  snd (do_cmd fuel p s c) = table_of p s c.
 Proof.
   intros Hrep. pose proof (start_checks_table s Hrep) as Hsc.
   unfold table_of. destruct c; cbn [do_cmd table bound_ok].
-  - unfold do_init. rewrite running_rs. destruct (rs_running (rs s)); [reflexivity|].
-    destruct (exec_actions _ _ _); reflexivity.
+  - unfold do_init, construct_raises. rewrite running_rs. destruct (rs_running (rs s)); [reflexivity|].
+    match goal with |- context [exec_actions InConstruct ?x ?b] =>
+      pose proof (exec_actions_failed InConstruct b x) as Hf; destruct (exec_actions InConstruct x b) as [s3 failed]
+    end.
+    cbn [snd] in Hf. rewrite <- Hf. destruct failed; reflexivity.
   - reflexivity.
   - destruct (rep s) as [r|] eqn:Er.
     + rewrite do_start_res, Hsc.
@@ -808,12 +818,12 @@ Qed.
 
 Lemma qinv_cases s :
   qinv s = true ->
-  (rs s = RNotInit /\ ps s = PNotInit /\ worker s = WNone) \/
+  (rs s = RNotInit /\ ps s = PNotInit /\ (worker s = WNone \/ worker s = WAlive)) \/
   (rs s = RInit /\ ps s = PInit /\ worker s = WAlive) \/
   (rs s = RStopped /\ ps s = PStarted /\ worker s = WAlive) \/
   (rs s = REnded /\ ps s = PEnded /\ worker s = WFinal).
 Proof.
-  unfold qinv, qstate_ok. destruct (rs s), (ps s), (worker s); intros H; try discriminate; auto 10.
+  unfold qinv, qstate_ok. destruct (rs s), (ps s), (worker s); intros H; try discriminate; auto 12.
 Qed.
 
 Lemma qinv_not_running s : qinv s = true -> running s = false.
@@ -861,6 +871,8 @@ Lemma do_start_QI fuel p s m b i s1 res :
   exists m1, mon_feed m (new_ntfs s s1) = Some m1 /\ QI s1 m1.
 Proof.
   intros Q H. destruct res.
+  3:{ exfalso. pose proof (do_start_res fuel p s b i) as Hr. rewrite H in Hr. cbn [snd] in Hr.
+      destruct (start_checks s); [destruct b as [bz|]; [destruct (bz <? clock s)|]|]; discriminate. }
   2:{ apply do_start_refused in H. subst s1. exists m. split; [|exact Q].
       unfold new_ntfs. rewrite Nat.sub_diag. reflexivity. }
   pose proof (do_start_res fuel p s b i) as Hres. rewrite H in Hres. cbn [snd] in Hres.
@@ -1095,31 +1107,36 @@ Proof.
   pose proof (exec_actions_hstep InConstruct (body p 0) s2) as Hh.
   pose proof (exec_actions_construct (body p 0) s2) as [Hc1 Hc2].
   destruct (exec_actions InConstruct s2 (body p 0)) as [s3 failed]. cbn [fst] in *.
-  injection H as <- <-.
   assert (N2 : ntfs s2 = ntfs s).
   { unfold s2, sc, s0, do_cleanup. destruct (worker (set_pend [] s)); reflexivity. }
   assert (P2 : pend s2 = []).
   { unfold s2, sc, s0, do_cleanup. destruct (worker (set_pend [] s)); reflexivity. }
   destruct Hh as [H1 H2 H3 H4 H5 H6 H7 H8 H9 H10 H11].
+  destruct failed.
+  { (* construct_model raised: not initialized, the new run thread waits, nothing was notified *)
+    injection H as <- <-. exists mon_dead. cbn [mon_reset]. split.
+    - erewrite new_ntfs_app with (l := []); [reflexivity|]. ssimpl. rewrite Hc2, N2. reflexivity.
+    - constructor; ssimpl; cbn; auto; try discriminate.
+      unfold qinv. ssimpl. rewrite H3. reflexivity. }
+  injection H as <- <-.
   assert (C2 : clock s2 = r_start r) by reflexivity.
   assert (Hpi : PI (r_start r) (r_warm r) 0 (pend s3)).
   { rewrite <- C2. apply H11. rewrite P2. apply PI_nil. }
-  set (s4 := if failed then raise_flag s3 else s3) in *.
-  set (s5 := set_ps PInit (set_rs RInit s4)) in *.
+  set (s5 := set_ps PInit (set_rs RInit s3)) in *.
   assert (F5 : clock s5 = r_start r /\ pend s5 = pend s3 /\ ntfs s5 = ntfs s /\ worker s5 = WAlive /\
                rep s5 = Some r).
-  { unfold s5, s4. destruct failed; ssimpl; rewrite H1, Hc2, N2, H3, H4; auto. }
+  { unfold s5. ssimpl; rewrite H1, Hc2, N2, H3, H4; auto. }
   destruct F5 as [F1 [F2 [F3 [F4 F5]]]].
   exists (mon_fresh (r_warm r)). cbn [mon_reset].
-  change (clock s5) with (clock s4) in *.
-  destruct (r_warm r <? clock s4) eqn:Hwm.
+  change (clock s5) with (clock s3) in *.
+  destruct (r_warm r <? clock s3) eqn:Hwm.
   - split.
     + erewrite new_ntfs_app with (l := []); [reflexivity|]. ssimpl. exact F3.
     + constructor; ssimpl; auto.
       * unfold qinv. ssimpl. rewrite F4. reflexivity.
       * intros _. exists r. auto.
       * intros _. cbn [m_w mon_fresh warm_left m_warm].
-        change (clock s5) with (clock s4). rewrite F1, F2.
+        change (clock s5) with (clock s3). rewrite F1, F2.
         eapply PI_weaken; [exact Hpi|lia].
   - apply Z.ltb_ge in Hwm. split.
     + erewrite new_ntfs_app with (l := []); [reflexivity|]. ssimpl. exact F3.
@@ -1127,7 +1144,7 @@ Proof.
       * unfold qinv. ssimpl. rewrite F4. reflexivity.
       * intros _. exists r. auto.
       * intros _. cbn [m_w mon_fresh warm_left m_warm].
-        change (clock s5) with (clock s4). change (pend s4) with (pend s5). rewrite F2.
+        change (clock s5) with (clock s3). change (pend s3) with (pend s5). rewrite F2.
         apply PI_ins_warm; [rewrite F1; exact Hpi|exact Hwm|reflexivity].
 Qed.
 
@@ -1195,7 +1212,7 @@ Theorem reachable_qinv fuel p st s : reachable fuel p st s -> qinv s = true.
 Proof. intros H. destruct (reachable_QI _ _ _ _ H) as [m Q]. exact (qi_q _ _ Q). Qed.
 
 Theorem accept_refuse_table fuel p st s c :
-  reachable fuel p st s -> snd (do_cmd fuel p s c) = table_of s c.
+  reachable fuel p st s -> snd (do_cmd fuel p s c) = table_of p s c.
 Proof.
   intros H. destruct (reachable_QI _ _ _ _ H) as [m Q].
   apply accept_refuse_table_inv. intros Hi.
@@ -1231,13 +1248,145 @@ Theorem cleanup_terminates_worker fuel p s :
   worker s' = WNone /\ alive_count s' = 0%nat /\ rs s' = RNotInit /\ ps s' = PNotInit.
 Proof. cbn. auto. Qed.
 
-(* the run thread is alive exactly in the states INITIALIZED and STARTED *)
+(* the run thread is alive exactly in the states INITIALIZED and STARTED, and
+   after an initialize aborted by construct_model (until the next initialize /
+   cleanup) *)
 Theorem alive_iff_runnable fuel p st s :
   reachable fuel p st s ->
-  alive_count s = (if ps_runnable (ps s) then 1%nat else 0%nat).
+  alive_count s = (if ps_runnable (ps s) || holds_aborted_thread s then 1%nat else 0%nat).
 Proof.
-  intros H. pose proof (reachable_qinv _ _ _ _ H) as Q. unfold alive_count.
-  destruct (qinv_cases s Q) as [[_ [-> ->]]|[[_ [-> ->]]|[[_ [-> ->]]|[_ [-> ->]]]]]; reflexivity.
+  intros H. pose proof (reachable_qinv _ _ _ _ H) as Q. unfold alive_count, holds_aborted_thread.
+  destruct (qinv_cases s Q) as [[-> [-> [->| ->]]]|[[-> [-> ->]]|[[-> [-> ->]]|[-> [-> ->]]]]]; reflexivity.
+Qed.
+
+(* companion: when construct_model does not raise, no state holds an aborted
+   run thread, so the run thread is alive exactly in INITIALIZED / STARTED *)
+Lemma mon_step_live m n m1 : mon_step m n = Some m1 -> m_live m1 = true.
+Proof.
+  unfold mon_step. destruct (m_live m) eqn:L; cbn [negb orb]; [|discriminate].
+  destruct (m_er m); [discriminate|].
+  destruct (m_starting m); destruct n; try discriminate;
+    repeat match goal with |- context [if ?x then _ else _] => destruct x end;
+    intros H; try discriminate; injection H as <-; try reflexivity; exact L.
+Qed.
+
+Lemma mon_feed_live l : forall m m1, m_live m = true -> mon_feed m l = Some m1 -> m_live m1 = true.
+Proof.
+  induction l as [|n r IH]; intros m m1 L H; cbn [mon_feed] in H.
+  - injection H as <-. exact L.
+  - destruct (mon_step m n) as [m'|] eqn:E; [|discriminate].
+    apply (IH m' m1); [eapply mon_step_live; exact E|exact H].
+Qed.
+
+Lemma no_abort_step fuel p s m c s1 res :
+  construct_raises p = false -> QI s m -> holds_aborted_thread s = false ->
+  do_cmd fuel p s c = (s1, res) -> holds_aborted_thread s1 = false.
+Proof.
+  intros Hp Q N H.
+  destruct (do_cmd_QI fuel p s m c s1 res Q H) as [m1 [F Q1]].
+  assert (T : res = table_of p s c).
+  { pose proof (accept_refuse_table_inv fuel p s c) as T. rewrite H in T. cbn [snd] in T. apply T.
+    intros Hi. destruct (qi_rep _ _ Q Hi) as [r' [Hr' _]]. congruence. }
+  destruct (agrees_inv _ _ _ (qi_agree _ _ Q)) as [A _].
+  destruct (agrees_inv _ _ _ (qi_agree _ _ Q1)) as [A1 _].
+  assert (Live : m_live m1 = true -> holds_aborted_thread s1 = false).
+  { intros L. rewrite L in A1. unfold holds_aborted_thread. destruct (rs s1); try reflexivity. discriminate. }
+  pose proof (qinv_not_running s (qi_q _ _ Q)) as Hrun. rewrite running_rs in Hrun.
+  destruct c.
+  - (* initialize: accepted (construct_model does not raise), so initialized afterwards *)
+    unfold table_of, table in T. rewrite Hrun, Hp in T. subst res. cbn [mon_reset] in F.
+    apply Live. eapply mon_feed_live; [|exact F]. reflexivity.
+  - cbn [do_cmd] in H. injection H as <- <-. exact N.
+  - destruct (rs_initialized (rs s)) eqn:Hi.
+    + apply Live. cbn [mon_reset] in F. eapply mon_feed_live; [|exact F]. congruence.
+    + unfold table_of, table in T. rewrite Hi, andb_false_r in T. cbn [andb] in T. subst res.
+      apply refused_changes_nothing in H. subst s1. exact N.
+  - destruct (rs_initialized (rs s)) eqn:Hi.
+    + apply Live. cbn [mon_reset] in F. eapply mon_feed_live; [|exact F]. congruence.
+    + unfold table_of, table in T. rewrite Hi, andb_false_r in T. cbn [andb] in T. subst res.
+      apply refused_changes_nothing in H. subst s1. exact N.
+  - unfold table_of, table in T. rewrite Hrun in T. subst res.
+    apply refused_changes_nothing in H. subst s1. exact N.
+  - destruct (rs_initialized (rs s)) eqn:Hi.
+    + apply Live. cbn [mon_reset] in F. eapply mon_feed_live; [|exact F]. congruence.
+    + unfold table_of, table in T. rewrite Hi, andb_false_r in T. cbn [andb] in T. subst res.
+      apply refused_changes_nothing in H. subst s1. exact N.
+  - destruct (rs_initialized (rs s)) eqn:Hi.
+    + apply Live. cbn [mon_reset] in F. eapply mon_feed_live; [|exact F]. congruence.
+    + unfold table_of, table in T. rewrite Hi, andb_false_r in T. cbn [andb] in T. subst res.
+      apply refused_changes_nothing in H. subst s1. exact N.
+  - destruct (rs_initialized (rs s)) eqn:Hi.
+    + apply Live. cbn [mon_reset] in F. eapply mon_feed_live; [|exact F]. congruence.
+    + destruct (qinv_cases s (qi_q _ _ Q)) as [[_ [E _]]|[[E _]|[[E _]|[E _]]]];
+        try (rewrite E in Hi; discriminate).
+      unfold table_of, table in T. rewrite E in T. subst res.
+      apply refused_changes_nothing in H. subst s1. exact N.
+  - cbn [do_cmd] in H. injection H as <- <-. reflexivity.
+Qed.
+
+Theorem no_aborted_thread_without_failing_construct fuel p st s :
+  construct_raises p = false -> reachable fuel p st s -> holds_aborted_thread s = false.
+Proof.
+  intros Hp [cs ->].
+  assert (G : forall cs s m, QI s m -> holds_aborted_thread s = false ->
+              holds_aborted_thread (fst (run_cmds fuel p s cs)) = false).
+  { clear cs. induction cs as [|c r IH]; intros s m Q N; cbn [run_cmds]; [exact N|].
+    destruct (do_cmd fuel p s c) as [s1 res] eqn:E.
+    destruct (do_cmd_QI fuel p s m c s1 res Q E) as [m1 [_ Q1]].
+    pose proof (no_abort_step fuel p s m c s1 res Hp Q N E) as N1.
+    specialize (IH s1 m1 Q1 N1). destruct (run_cmds fuel p s1 r) as [s2 sn]. exact IH. }
+  apply (G cs _ _ (QI_init st)). reflexivity.
+Qed.
+
+(* ---- histories in which the model program may differ from command to command
+   (in particular: construct_model raises in some initialize calls and not in
+   others).  Every step preserves the invariant QI whatever the program is. ---- *)
+Inductive vreach (fuel : nat) : sim -> Prop :=
+| vr_init st : vreach fuel (init_sim st)
+| vr_step s p c : vreach fuel s -> vreach fuel (fst (do_cmd fuel p s c)).
+
+Lemma vreach_QI fuel s : vreach fuel s -> exists m, QI s m.
+Proof.
+  intros H. induction H as [st|s p c H [m Q]].
+  - exists mon_dead. apply QI_init.
+  - destruct (do_cmd fuel p s c) as [s1 res] eqn:E.
+    destruct (do_cmd_QI fuel p s m c s1 res Q E) as [m1 [_ Q1]]. exists m1. exact Q1.
+Qed.
+
+Lemma run_cmds_vreach fuel p cs : forall s, vreach fuel s -> vreach fuel (fst (run_cmds fuel p s cs)).
+Proof.
+  induction cs as [|c r IH]; intros s H; cbn [run_cmds]; [exact H|].
+  pose proof (vr_step fuel s p c H) as H1.
+  destruct (do_cmd fuel p s c) as [s1 res]. cbn [fst] in H1.
+  specialize (IH s1 H1). destruct (run_cmds fuel p s1 r) as [s2 sn]. exact IH.
+Qed.
+
+Lemma reachable_vreach fuel p st s : reachable fuel p st s -> vreach fuel s.
+Proof. intros [cs ->]. apply run_cmds_vreach. apply vr_init. Qed.
+
+(* Run-thread accounting over all such histories, aborted initializes included:
+   there is never more than one live run thread (an initialize terminates the
+   previous one before it creates the next, also after an abort); none after
+   cleanup; none once the replication has ENDED; a live one exactly when the
+   replication is INITIALIZED / STARTED or an aborted initialize left its new
+   thread waiting *)
+Theorem run_thread_accounting fuel s :
+  vreach fuel s ->
+  (alive_count s <= 1)%nat /\
+  (ps s = PEnded -> alive_count s = 0%nat) /\
+  (forall p, alive_count (fst (do_cmd fuel p s CCleanup)) = 0%nat) /\
+  (alive_count s = 1%nat <-> ps_runnable (ps s) = true \/ holds_aborted_thread s = true) /\
+  (* the initialize that follows replaces the thread, it does not add one *)
+  (forall p r, (alive_count (fst (do_cmd fuel p s (CInit r))) <= 1)%nat).
+Proof.
+  intros H. destruct (vreach_QI fuel s H) as [m Q]. pose proof (qi_q _ _ Q) as Qq.
+  unfold alive_count, holds_aborted_thread.
+  split; [destruct (worker s); lia|]. split; [|split; [|split]].
+  - intros E. destruct (qinv_cases s Qq) as [[_ [E1 _]]|[[_ [E1 _]]|[[_ [E1 _]]|[_ [_ ->]]]]]; try congruence.
+  - intros p. reflexivity.
+  - destruct (qinv_cases s Qq) as [[-> [-> [->| ->]]]|[[-> [-> ->]]|[[-> [-> ->]]|[-> [-> ->]]]]]; cbn;
+      split; auto; try discriminate; intros [E|E]; discriminate.
+  - intros p r. destruct (worker (fst (do_cmd fuel p s (CInit r)))); lia.
 Qed.
 
 (* TIME_CHANGED carries the time of the event that is executed next.  For
